@@ -185,7 +185,7 @@ theorem resyncLoop_slot (lag : Nat) (c : Clock) (n : Nat) (rs : List Read) (u : 
   | zero => simp [resyncLoop, slot]
   | succ n ih =>
     cases rs with
-    | nil => simp only [resyncLoop]; exact ih [] u
+    | nil => simp only [resyncLoop]; exact ih [] (u + 1)
     | cons r rs =>
       simp only [resyncLoop]
       split
@@ -226,7 +226,7 @@ theorem resyncLoop_epoch (p : Params) (lag : Nat) (c : Clock) (n : Nat) (rs : Li
   | zero => left; simp [resyncLoop, cur_interval]
   | succ n ih =>
     cases rs with
-    | nil => simp only [resyncLoop]; exact ih [] u
+    | nil => simp only [resyncLoop]; exact ih [] (u + 1)
     | cons r rs =>
       simp only [resyncLoop]
       split
